@@ -381,11 +381,49 @@ func (fi *fnInfo) intLB(v ssa.Value, ctx *ssa.BasicBlock, depth int) int {
 				if a > -1<<39 && a-c > best {
 					best = a - c
 				}
+			} else if u := fi.intUB(x.Y, ctx, depth+1); u >= 0 && u < 1<<20 {
+				// x - y >= LB(x) - UB(y) when the subtraction cannot wrap (signed 64-bit, or LB(x) >= UB(y))
+				a := fi.intLB(x.X, ctx, depth+1)
+				if a > -1<<39 && a-u > best && (a >= u || typeMax(x.Type()) == 0 && !isUnsigned(x.Type())) {
+					best = a - u
+				}
 			}
+		case token.AND_NOT:
+			// x &^ c >= x - c for a non-negative x and mask c
+			if c, ok := constInt(x.Y); ok && c >= 0 {
+				a := fi.intLB(x.X, ctx, depth+1)
+				if a >= 0 && a-c > best {
+					best = a - c
+				}
+			}
+		}
+	case *ssa.Phi:
+		// merged value: the minimum over the incoming values, each bounded where it flows in
+		m := 1 << 40
+		for i, e := range x.Edges {
+			if e == ssa.Value(x) {
+				continue
+			}
+			l := fi.intLB(e, x.Block().Preds[i], depth+2)
+			if l < m {
+				m = l
+			}
+		}
+		if m != 1<<40 && m > best {
+			best = m
 		}
 	case *ssa.Call:
 		if _, ok := isLen(x); ok && best < 0 {
 			best = 0
+		}
+		if f := x.Call.StaticCallee(); f != nil && len(f.Blocks) > 0 && pureIntFn(f) {
+			args := make([]int, len(x.Call.Args))
+			for i, a := range x.Call.Args {
+				args[i] = fi.intLB(a, ctx, depth+1)
+			}
+			if lb := calleeLB(f, args); lb > best {
+				best = lb
+			}
 		}
 	}
 	if sv != v { // conversion: keep the bound of the inner value unless a narrowing conversion may truncate it
@@ -978,4 +1016,163 @@ func linDiff(hi, lo ssa.Value) (int, bool) {
 		return oh - ol, true
 	}
 	return 0, false
+}
+
+func isUnsigned(t types.Type) bool {
+	b, ok := t.Underlying().(*types.Basic)
+	return ok && b.Info()&types.IsUnsigned != 0
+}
+
+// pureIntFn: a small function of integer parameters returning one integer,
+// built only from arithmetic, comparisons, φ and returns (no memory, no calls).
+func pureIntFn(f *ssa.Function) bool {
+	if f.Signature.Recv() != nil || f.Signature.Results().Len() != 1 || len(f.Blocks) > 12 {
+		return false
+	}
+	isInt := func(t types.Type) bool {
+		b, ok := t.Underlying().(*types.Basic)
+		return ok && b.Info()&types.IsInteger != 0
+	}
+	if !isInt(f.Signature.Results().At(0).Type()) {
+		return false
+	}
+	for _, p := range f.Params {
+		if !isInt(p.Type()) {
+			return false
+		}
+	}
+	for _, b := range f.Blocks {
+		for _, ins := range b.Instrs {
+			switch ins.(type) {
+			case *ssa.BinOp, *ssa.UnOp, *ssa.Convert, *ssa.ChangeType, *ssa.Phi, *ssa.If, *ssa.Jump, *ssa.Return, *ssa.DebugRef:
+				if u, ok := ins.(*ssa.UnOp); ok && u.Op == token.MUL {
+					return false
+				}
+			default:
+				return false
+			}
+		}
+	}
+	return true
+}
+
+// calleeLB: lower bound of the result of a pure integer function given lower
+// bounds of its arguments (path conditions ignored: the minimum over all
+// returns).  Arithmetic in narrow unsigned types is treated as possibly
+// wrapping (bound 0).
+func calleeLB(f *ssa.Function, args []int) int {
+	const ninf = -1 << 40
+	var lb, ub func(v ssa.Value, d int) int
+	lb = func(v ssa.Value, d int) int {
+		if d > 10 {
+			return ninf
+		}
+		if c, ok := constInt(v); ok {
+			return c
+		}
+		floor := ninf
+		if isUnsigned(v.Type()) {
+			floor = 0
+		}
+		max := func(a int) int {
+			if a > floor {
+				return a
+			}
+			return floor
+		}
+		switch x := v.(type) {
+		case *ssa.Parameter:
+			for i, p := range f.Params {
+				if p == x && i < len(args) {
+					return max(args[i])
+				}
+			}
+		case *ssa.Convert:
+			if widening(x.X.Type(), x.Type()) {
+				return max(lb(x.X, d+1))
+			}
+		case *ssa.ChangeType:
+			return max(lb(x.X, d+1))
+		case *ssa.Phi:
+			m := 1 << 40
+			for _, e := range x.Edges {
+				if l := lb(e, d+1); l < m {
+					m = l
+				}
+			}
+			return max(m)
+		case *ssa.BinOp:
+			if typeMax(x.Type()) != 0 || isUnsigned(x.Type()) {
+				return floor // may wrap
+			}
+			a := lb(x.X, d+1)
+			switch x.Op {
+			case token.ADD:
+				b := lb(x.Y, d+1)
+				if a > ninf/2 && b > ninf/2 {
+					return max(a + b)
+				}
+			case token.SUB:
+				if u := ub(x.Y, d+1); u >= 0 && a > ninf/2 {
+					return max(a - u)
+				}
+			case token.MUL:
+				b := lb(x.Y, d+1)
+				if a >= 0 && b >= 0 {
+					return max(a * b)
+				}
+			case token.AND_NOT:
+				if c, ok := constInt(x.Y); ok && c >= 0 && a >= 0 {
+					return max(a - c)
+				}
+			case token.AND:
+				if a >= 0 {
+					return max(0)
+				}
+			}
+		}
+		return floor
+	}
+	ub = func(v ssa.Value, d int) int {
+		if d > 10 {
+			return -1
+		}
+		if c, ok := constInt(v); ok {
+			return c
+		}
+		switch x := v.(type) {
+		case *ssa.Convert:
+			return ub(x.X, d+1)
+		case *ssa.BinOp:
+			switch x.Op {
+			case token.AND:
+				if c, ok := constInt(x.Y); ok && c >= 0 {
+					return c
+				}
+				if c, ok := constInt(x.X); ok && c >= 0 {
+					return c
+				}
+			case token.REM:
+				if c, ok := constInt(x.Y); ok && c > 0 {
+					return c - 1
+				}
+			}
+		}
+		if m := typeMax(v.Type()); m > 0 {
+			return m
+		}
+		return -1
+	}
+	m := 1 << 40
+	for _, b := range f.Blocks {
+		if r, ok := b.Instrs[len(b.Instrs)-1].(*ssa.Return); ok {
+			if l := lb(r.Results[0], 0); l < m {
+				m = l
+			}
+		}
+	}
+	if m == 1<<40 {
+		return ninf
+	}
+	return m
 }
